@@ -77,8 +77,10 @@ fn main() {
             }
             (Some(Err(f)), "known") => {
                 // a different failure on the known finding's input is not the listed finding
-                println!("{}", f.message);
-                violation_lines.push(format!("VIOLATION property={} replay={}", def.id, path.display()));
+                let mut rf2 = rf.clone();
+                rf2.signature = f.signature.clone();
+                rf2.message = format!("known finding's input now fails differently: {}", f.message);
+                report.violations.push((rf2, path.clone()));
                 "known finding's input now fails differently"
             }
             (Some(Ok(())), "known") => {
@@ -87,8 +89,10 @@ fn main() {
             }
             (Some(Ok(())), _) => "fixed finding stays fixed",
             (Some(Err(f)), _) => {
-                println!("regression of fixed finding {}: {}", k.signature, f.message);
-                violation_lines.push(format!("VIOLATION property={} replay={}", def.id, path.display()));
+                let mut rf2 = rf.clone();
+                rf2.signature = f.signature.clone();
+                rf2.message = format!("regression of fixed finding {}: {}", k.signature, f.message);
+                report.violations.push((rf2, path.clone()));
                 "FIXED FINDING REGRESSED"
             }
             (None, _) => {
